@@ -807,3 +807,37 @@ def fixed_char_programs(rng, n):
             src = f"def f({sig}) -> {codec.annotation(ret)}:\n    return {e}\n"
             out.append({"src": src, "args": args, "ret": ret, "feat": ["char"]})
     return out
+
+
+def mixed_fixed_programs(rng, n):
+    """fixed-point values of DIFFERENT (integer, fractional) sizes meeting in one operation: two typed arguments, bare float
+    literals (multiples of 1/4, which the library's literal typing holds exactly), if-expressions and return coercions"""
+    out = []
+    small = [(i, f) for i, f in FIXED_TYPES if i + f <= 6]
+    for k in range(n):
+        (i1, f1), (i2, f2) = rng.sample(small, 2)
+        t1, t2 = f"Qfixed{i1}_{f1}", f"Qfixed{i2}_{f2}"
+        a1, a2 = f"Qfixed[{i1}, {f1}]", f"Qfixed[{i2}, {f2}]"
+        lit = repr(rng.randrange(1, 1 << (i1 + 2)) / 4)
+        ri, rf = rng.choice([(i, f) for i, f in FIXED_TYPES if i >= max(i1, i2) and f >= max(f1, f2)] or [(4, 6)])
+        rt, ra = f"Qfixed{ri}_{rf}", f"Qfixed[{ri}, {rf}]"
+        cmp_ = rng.choice(CMP)
+        kind = k % 8
+        if kind == 0:
+            src, args, ret = f"def f(a: {a1}, b: {a2}) -> {ra}:\n    return a + b\n", [["a", t1], ["b", t2]], rt
+        elif kind == 1:
+            src, args, ret = f"def f(a: {a1}, b: {a2}) -> bool:\n    return a {cmp_} b\n", [["a", t1], ["b", t2]], "bool"
+        elif kind == 2:
+            src, args, ret = f"def f(a: {a1}) -> {a1}:\n    return a + {lit}\n", [["a", t1]], t1
+        elif kind == 3:
+            src, args, ret = f"def f(a: {a1}) -> bool:\n    return a {cmp_} {lit}\n", [["a", t1]], "bool"
+        elif kind == 4:
+            src, args, ret = f"def f(a: {a1}) -> {ra}:\n    return a\n", [["a", t1]], rt
+        elif kind == 5:
+            src, args, ret = f"def f(a: {a1}, b: {a2}, c: bool) -> {ra}:\n    return a if c else b\n", [["a", t1], ["b", t2], ["c", "bool"]], rt
+        elif kind == 6:
+            src, args, ret = f"def f(a: {a1}, b: {a2}) -> {ra}:\n    v = a - b if a > b else b - a\n    return v\n", [["a", t1], ["b", t2]], rt
+        else:
+            src, args, ret = f"def f(a: {a1}) -> {a1}:\n    return {lit} + a if a < {lit} else a\n", [["a", t1]], t1
+        out.append({"src": src, "args": args, "ret": ret, "feat": ["mixed_fixed"], "tag": "mixed_fixed"})
+    return out
